@@ -18,6 +18,8 @@ import (
 	"github.com/hedzr/logg/slog"
 	errorsv3 "gopkg.in/hedzr/errors.v3"
 
+	applog "verif/worker/c14pkg/log"
+
 	"verif/oracle/jsonx"
 	"verif/oracle/logfmt"
 )
@@ -298,8 +300,31 @@ func c14entries() []c14entry {
 		{"std log Printf", "bridge", func(e *c14env) (s c14site) { e.std.Printf(mark(&s)+" %d", 1); return }},
 		{"std log Println", "bridge", func(e *c14env) (s c14site) { e.std.Println(mark(&s)); return }},
 		{"std log Output(1)", "bridge", func(e *c14env) (s c14site) { _ = e.std.Output(1, mark(&s)); return }},
+		// user code in a package that is itself named log
+		{"std log Print from a user package named log", "bridge", func(e *c14env) c14site { return c14from(applog.ViaBridgePrint(e.std)) }},
+		{"std log Printf from a user package named log", "bridge", func(e *c14env) c14site { return c14from(applog.ViaBridgePrintf(e.std)) }},
+		{"std log Output(1) from a user package named log", "bridge", func(e *c14env) c14site { return c14from(applog.ViaBridgeOutput(e.std)) }},
+		{"Info from a user package named log", "native", func(e *c14env) c14site { return c14from(applog.ViaNativeInfo(e.l)) }},
+		{"log/slog Logger.Warn from a user package named log", "adapter", func(e *c14env) c14site { return c14from(applog.ViaAdapterWarn(e.sl)) }},
+		{"slog.Error from a user package named log", "package", func(e *c14env) c14site { return c14from(applog.ViaPackageLevelError()) }},
+		// attributes named like the caller field and its members
+		{"Info with an attribute named caller", "native", func(e *c14env) (s c14site) { e.l.Info(mark(&s), "caller", "10.0.0.7:443", "k", 1); return }},
+		{"Warn with attributes named file, line, func and source", "native", func(e *c14env) (s c14site) { e.l.Warn(mark(&s), "file", "f.txt", "line", 7, "func", "fn", "source", "src"); return }},
+		// call sites inside generic code
+		{"Info from a method of a generic type", "native", func(e *c14env) (s c14site) { (&c14queue[int]{}).Push(e, &s); return }},
+		{"Error from a generic function", "native", func(e *c14env) (s c14site) { c14generic(e, &s, "v"); return }},
 	}
 }
+
+func c14from(s applog.Site) c14site { return c14site{s.PC, s.File, s.Line, s.Fn} }
+
+type c14queue[T any] struct{ items []T }
+
+//go:noinline
+func (q *c14queue[T]) Push(e *c14env, s *c14site) { e.l.Info(mark(s), "k", len(q.items)) }
+
+//go:noinline
+func c14generic[T any](e *c14env, s *c14site, v T) { e.l.Error(mark(s), "k", v) }
 
 // wrapper chains for skip counts: wrapN calls the native Info/ErrorContext n levels below the call site
 
@@ -552,11 +577,12 @@ func c14run1(cas c14case) *Violation {
 	var gotLine int
 	switch cas.Format {
 	case "json":
-		obj, err := jsonx.DecodeLine([]byte(p))
+		// (an attribute may be named like the caller field: the statement is about the field the library writes, the later one)
+		obj, err := jsonx.DecodeLineKeepDuplicates([]byte(p))
 		if err != nil {
 			return mk("decodable", fmt.Sprintf("%v: %.200q", err, p))
 		}
-		cv, _ := obj.Get("caller")
+		cv, _ := obj.GetLast("caller")
 		co, ok := cv.(*jsonx.Obj)
 		if !ok {
 			return mk("caller-present", fmt.Sprintf("no caller object in %.200q", p))
